@@ -9,6 +9,9 @@ def deref_all(v):
     return v
 def pyint(ex, v, what='int'):
     return ex.concretize_int(v, what)
+def MM_branch(ex, b):
+    c = b.concrete()
+    return c if c is not None else ex.branch_bool(b)
 def pybool(ex, v):
     c = v.concrete()
     if c is not None: return c
@@ -168,6 +171,11 @@ def m_str_cmp(ex, a):
 
 # ------------------------------------------------------------------------------------------ iterators
 def iter_next(ex, it):
+    if isinstance(it, Agg) and it.ty == 'Range':          # std::ops::Range<usize>: fork on start < end
+        st, en = it.fields[0].v, it.fields[1].v
+        if not MM_branch(ex, Bool(z3.ULT(st.bv, en.bv))): return None
+        it.fields[0].v = Int(z3.simplify(st.bv + 1), st.ty)
+        return st
     if it.peeked: return it.peeked.pop(0)
     try: return next(it.it)
     except StopIteration: return None
